@@ -29,7 +29,11 @@ mkscratch() {
   rm -rf "$SCR"; mkdir -p "$SCR/tmp" "$SCR/build" "$SCR/work"
   export VERIF_SCRATCH="$SCR/work"
   export TMPDIR="$SCR/tmp"
-  trap 'chmod -R u+rwx "$SCR" 2>/dev/null; rm -rf "$SCR"' EXIT
+  # a second file system (the one this directory is on) for the few cases that need source and destination on
+  # different ones; removed with the rest
+  export VERIF_DISK_SCRATCH="$HERE/.cache/disk.$$"
+  mkdir -p "$VERIF_DISK_SCRATCH"
+  trap 'chmod -R u+rwx "$SCR" "$VERIF_DISK_SCRATCH" 2>/dev/null; rm -rf "$SCR" "$VERIF_DISK_SCRATCH"' EXIT
 }
 
 # modfile pointing at $VERIF_REPO
